@@ -6,6 +6,7 @@ import json
 import os
 import random
 import re
+import threading
 import vf
 
 PID = "C15"
@@ -34,8 +35,11 @@ def _own_overlay(pid):
                 raise vf.Broken("overlay file would replace an existing repository file: %s" % rel)
             repl[dst] = src
     p = os.path.join(vf.outdir(pid), "overlay.json")
-    with open(p, "w") as fh:
+    # (several drivers of this check are built side by side: the file is replaced atomically)
+    tmp = "%s.%d.%d" % (p, os.getpid(), threading.get_ident())
+    with open(tmp, "w") as fh:
         json.dump({"Replace": repl}, fh, indent=1)
+    os.replace(tmp, p)
     return p
 
 
@@ -245,8 +249,212 @@ def scenarios(tier, futures=None):
     return out
 
 
+
+# --------------------------------------------------------------------------------------------------
+# The scheduling-path family (spec/SyncPaths.tla): WHO is in the duty of a slot, whichever of the
+# controller's four entry points set the slot's job up (start-up, epoch ticker, Altair fork handler,
+# reorg refresh), on ONE wired instance per history: real controller + real advanced scheduler + real
+# wallet account manager over the real validators manager + real signer / messenger / aggregator /
+# subscriber; fakes at the beacon node and the wallet store.
+# --------------------------------------------------------------------------------------------------
+PATHS_TEST = "TestVerifC15Paths"
+PATHS_ID0 = 500000
+PATHS_REPLAY0 = 2000
+PATHS = ("start", "ticker", "fork", "refresh")
+PATHS_STATES = ("active_exiting", "active_slashed", "exited_unslashed", "exited_slashed", "withdrawal_possible")
+
+PATHS_CONTROLS = (("MC_SyncPaths_dev_start.cfg", "New() schedules with the validating set"),
+                  ("MC_SyncPaths_dev_ticker.cfg", "the epoch ticker prepares the next period with the validating set"),
+                  ("MC_SyncPaths_dev_fork.cfg", "the Altair fork handler schedules with the validating set"),
+                  ("MC_SyncPaths_dev_refresh.cfg", "the reorg refresh reschedules with the validating set"),
+                  ("MC_SyncPaths_dev_byindex.cfg", "the ByIndex account lookup inside the scheduling applies the validating filter"))
+
+
+def paths_selfcheck():
+    """Vacuity self-check of the path model: each control design (one path, or the shared ByIndex lookup, takes
+    the validating set) must violate JobsComplete; the refresh design passes when no head event arrives."""
+    n = 0
+    for cfg, what in PATHS_CONTROLS:
+        r = vf.tlc(PID, "self-" + cfg.replace(".cfg", ""), "SyncPaths", cfg, workers=2, timeout=1200)
+        if r["timed_out"] or r["kind"] != "invariant" or r["violated"] != "JobsComplete":
+            raise vf.Broken("model self-check failed: %s (%s) does not violate JobsComplete (%s %s)\n%s" % (
+                cfg, what, r["kind"], r["violated"], r["out"][-1500:]))
+        vf.log("model self-check: %s - JobsComplete violated, as it must be (%d distinct states)" % (what, r["distinct"]))
+        n += 1
+    r = vf.tlc(PID, "self-paths-blind", "SyncPaths", "MC_SyncPaths_dev_refresh_blind.cfg", workers=2, timeout=1200)
+    if not r["ok"]:
+        raise vf.Broken("model self-check failed: MC_SyncPaths_dev_refresh_blind.cfg should pass (%s %s)" % (r["kind"], r["violated"]))
+    vf.log("model self-check: the refresh design passes while no head event arrives (%d distinct states)" % r["distinct"])
+    return n
+
+
+def paths_features(s):
+    """What a path scenario exercises (classes come from the specification: the generator writes into every
+    RunSlot step which path set the job up and how many of its members were outside the validating set then)."""
+    f = {"family": "paths", "fork": 0, "heads": 0, "refresh_accounts": False, "env": False}
+    for p in PATHS:
+        f["ran_" + p] = False
+        f["ran_" + p + "_nonvalidating"] = False
+    for x in PATHS_STATES:
+        f["ran_with_" + x] = False
+    for st in s["steps"]:
+        ev = st["ev"]
+        if ev == "Reset":
+            f["fork"] = st["fork"]
+        elif ev == "Head":
+            f["heads"] += 1
+        elif ev == "RefreshAccounts":
+            f["refresh_accounts"] = True
+        elif ev in ("Exit", "Slash"):
+            f["env"] = True
+        elif ev == "RunSlot" and st.get("n", 0) > 0:
+            f["ran_" + st["by"]] = True
+            if st.get("nv", 0) > 0:
+                f["ran_" + st["by"] + "_nonvalidating"] = True
+            for x in st.get("st", []):
+                if x in PATHS_STATES:
+                    f["ran_with_" + x] = True
+    return f
+
+
+def paths_nontrivial(s, rows):
+    # exercises the antecedent: the jobs of a slot ran whose duty has a member with an account
+    return any(st["ev"] == "RunSlot" and st.get("n", 0) > 0 for st in s["steps"])
+
+
+def _drop_prefixes(hs):
+    keys = sorted(json.dumps(h, sort_keys=True)[:-1] for h in hs)   # without the closing bracket
+    drop = set()
+    for a, b in zip(keys, keys[1:]):
+        if b.startswith(a + ","):
+            drop.add(a)
+    return [h for h in hs if json.dumps(h, sort_keys=True)[:-1] not in drop]
+
+
+def paths_pick(tier, pools):
+    quick = tier == "quick"
+    rnd = random.Random(vf.seed())
+    out, seen = [], set()
+
+    def take(h):
+        k = json.dumps(h, sort_keys=True)
+        if k in seen:
+            return False
+        seen.add(k)
+        out.append({"sc": PATHS_ID0 + len(out), "family": "paths", "steps": h})
+        return True
+
+    # (pool, scenarios, forced classes with their number)
+    plan = (("refresh", 30 if quick else 700, (("ran_refresh_nonvalidating", 12 if quick else 250), ("ran_refresh", 6 if quick else 100),
+                                                ("ran_ticker_nonvalidating", 4 if quick else 100), ("ran_start_nonvalidating", 3 if quick else 100),
+                                                ("ran_with_exited_slashed", 2 if quick else 50), ("ran_with_withdrawal_possible", 2 if quick else 50))),
+            ("fork", 16 if quick else 400, (("ran_fork_nonvalidating", 6 if quick else 150), ("ran_fork", 3 if quick else 50),
+                                            ("ran_ticker_nonvalidating", 2 if quick else 50))),
+            ("general", 16 if quick else 500, (("ran_start_nonvalidating", 3 if quick else 100), ("ran_ticker_nonvalidating", 3 if quick else 100),
+                                               ("ran_with_exited_slashed", 2 if quick else 50), ("ran_with_active_slashed", 2 if quick else 50),
+                                               ("ran_with_exited_unslashed", 2 if quick else 50), ("ran_with_withdrawal_possible", 2 if quick else 50),
+                                               ("ran_refresh_nonvalidating", 2 if quick else 50))))
+    for name, cap, forced in plan:
+        hs = _drop_prefixes(pools[name])
+        rnd.shuffle(hs)
+        feats = [paths_features({"steps": h}) for h in hs]
+        n0 = len(out)
+        for key, want in forced:
+            n = 0
+            for h, f in zip(hs, feats):
+                if n >= want or len(out) - n0 >= cap:
+                    break
+                if f[key] and take(h):
+                    n += 1
+        for h, f in zip(hs, feats):
+            if len(out) - n0 >= cap:
+                break
+            if any(f["ran_" + p] for p in PATHS):
+                take(h)
+    return out
+
+
+def _paths_shards(scens, tag):
+    """Run the path driver: each history needs its real time (the epoch ticker waits 200 ms), so the histories
+    are spread over several driver processes."""
+    if not scens:
+        return []
+    k = max(1, min(6, len(scens) // 25))
+    if k == 1:
+        return vf.run_driver(PID, PKG, PATHS_TEST, scens, "paths-" + tag)
+    parts = [scens[i::k] for i in range(k)]
+    with concurrent.futures.ThreadPoolExecutor(max_workers=k) as pool:
+        fs = [pool.submit(vf.run_driver, PID, PKG, PATHS_TEST, part, "paths-%s-%d" % (tag, i)) for i, part in enumerate(parts)]
+        rows = []
+        for f in fs:
+            rows += f.result()
+    return rows
+
+
+def _paths_prepare(tier):
+    # the three generators one after the other (one JVM at a time: the other blocks of the check run beside this)
+    quick = tier == "quick"
+    pools = {}
+    for i, (name, cfg, nq, nt, depth) in enumerate((("refresh", "Scen_SyncPaths_refresh.cfg", 350, 6000, 18),
+                                                    ("fork", "Scen_SyncPaths_fork.cfg", 250, 4000, 16),
+                                                    ("general", "Scen_SyncPaths.cfg", 300, 5000, 20))):
+        pools[name] = vf.tlc_scenarios(PID, "Scen_SyncPaths", cfg, num=nq if quick else nt, depth=depth,
+                                       name="scen-paths-" + name, aseed=vf.seed() + 5000 + 1000 * i, timeout=900)
+    sc = paths_pick(tier, pools)
+    vf.log("scheduling paths: %d histories (%s)" % (len(sc), ", ".join("%d from %s" % (len(v), k) for k, v in pools.items())))
+    return sc, _paths_shards(sc, "batch")
+
+
+def _paths_model(tier):
+    res = [vf.tlc_exhaustive(PID, "SyncPaths", c, workers=3, timeout=2400) for c in ("MC_SyncPaths.cfg", "MC_SyncPaths_fork.cfg")]
+    paths_selfcheck()
+    if tier != "quick":
+        res += [vf.tlc_exhaustive(PID, "SyncPaths", c, workers=4, timeout=2400) for c in ("MC_SyncPaths_big.cfg", "MC_SyncPaths_fork_big.cfg")]
+    return res
+
+
+def paths_start(tier):
+    pool = concurrent.futures.ThreadPoolExecutor(max_workers=2)
+    return {"tier": tier, "pool": pool, "prep": pool.submit(_paths_prepare, tier), "mc": pool.submit(_paths_model, tier)}
+
+
+def _paths_conformance(v, sc, rows):
+    def drv(scens, tag):
+        if tag == "batch" and rows is not None:
+            return rows
+        return _paths_shards(scens, tag)
+    orig = vf.save_replay
+    vf.save_replay = lambda p, n, s, r, note: orig(p, PATHS_REPLAY0 + n, s, r, note)
+    try:
+        return vf.conformance(v, sc, drv, "Trace_SyncPaths", "Trace_SyncPaths.cfg", paths_features, paths_nontrivial,
+                              chunk=None if len(sc) < 400 else 300)
+    finally:
+        vf.save_replay = orig
+
+
+def paths_finish(v, h):
+    try:
+        sc, rows = h["prep"].result()
+        _paths_conformance(v, sc, rows)
+        for r in h["mc"].result():
+            v.add_mc(r)
+    finally:
+        h["pool"].shutdown(wait=False)
+    v.assumptions.append(
+        "scheduling paths (spec/SyncPaths.tla): one wired instance per history - real controller, advanced scheduler (jobs "
+        "started with RunJob, the chain clock moved by hand, no timer ever fires), wallet account manager over a filesystem "
+        "store with real keystore accounts, validators manager, signer, sync committee messenger / aggregator / subscriber; "
+        "scripted: the beacon node (validator records, sync committee duties per period, head root, contributions, "
+        "submissions) and which accounts the store offers; SLOTS_PER_EPOCH = 2, EPOCHS_PER_SYNC_COMMITTEE_PERIOD = 8, "
+        "preparation 5 epochs ahead (the code's constant), committee of 32 on 4 subnets with target 16 (every member is an "
+        "aggregator); every signature succeeds; validators were activated long ago and never reach withdrawal_done")
+
+# seconds on a quiet machine; the timeouts leave room for a machine that is busy with other work
+MC_TIMEOUT = 2400
+
+
 def _mc_lane(cfgs):
-    return [vf.tlc_exhaustive(PID, "SyncCommittee", cfg, workers=4) for cfg in cfgs]
+    return [vf.tlc_exhaustive(PID, "SyncCommittee", cfg, workers=4, timeout=MC_TIMEOUT) for cfg in cfgs]
 
 
 # control designs (constant Deviation of SyncCommittee.tla): one zero signature at one signing step takes
@@ -260,13 +468,13 @@ CONTROLS = (("MC_SyncCommittee_dev_sel.cfg", "a zero selection signature leaves 
 def selfcheck():
     """Vacuity self-check: the model must be able to SEE the class (broken run otherwise, never a verdict)."""
     for cfg, what in CONTROLS:
-        r = vf.tlc(PID, "self-" + cfg.replace(".cfg", ""), "SyncCommittee", cfg, workers=2, timeout=600)
+        r = vf.tlc(PID, "self-" + cfg.replace(".cfg", ""), "SyncCommittee", cfg, workers=2, timeout=1200)
         if r["timed_out"] or r["kind"] != "invariant" or r["violated"] != "MembersIndependent":
             raise vf.Broken("model self-check failed: %s (%s) does not violate MembersIndependent (%s %s)\n%s" % (
                 cfg, what, r["kind"], r["violated"], r["out"][-1500:]))
         vf.log("model self-check: %s - MembersIndependent violated, as it must be (%d distinct states)" % (what, r["distinct"]))
     # ... and the same design passes while the alphabet has no zero SELECTION signature: why it went unseen before
-    r = vf.tlc(PID, "self-blind", "SyncCommittee", "MC_SyncCommittee_dev_sel_blind.cfg", workers=2, timeout=600)
+    r = vf.tlc(PID, "self-blind", "SyncCommittee", "MC_SyncCommittee_dev_sel_blind.cfg", workers=2, timeout=1200)
     if not r["ok"]:
         raise vf.Broken("model self-check failed: MC_SyncCommittee_dev_sel_blind.cfg should pass (%s %s)" % (r["kind"], r["violated"]))
     vf.log("model self-check: the same design passes when the alphabet lacks the zero selection signature (%d distinct states)" % r["distinct"])
@@ -289,9 +497,10 @@ def run(tier):
     ]
     # the exhaustive runs and the scenario generators are independent TLC processes: run them side by side
     ah = agg.start(PID, "B", tier)
+    ph = paths_start(tier)
     with concurrent.futures.ThreadPoolExecutor(max_workers=5) as pool:
         gens = generate(tier, pool)
-        mcs = [pool.submit(vf.tlc_exhaustive, PID, "SyncCommittee", "MC_SyncCommittee.cfg", workers=4),
+        mcs = [pool.submit(vf.tlc_exhaustive, PID, "SyncCommittee", "MC_SyncCommittee.cfg", workers=4, timeout=MC_TIMEOUT),
                pool.submit(_mc_lane, ["MC_SyncCommittee_window.cfg", "MC_SyncCommittee_two.cfg", "MC_SyncCommittee_err.cfg", "MC_SyncCommittee_roots.cfg"])]
         self_f = pool.submit(selfcheck)
         v.add_mc(mcs[0].result())
@@ -321,6 +530,8 @@ def run(tier):
     # additional conformance block: what the aggregation jobs set up above do when they run
     # (synccommitteeaggregator/standard SetBeaconBlockRoot / Aggregate against pipeline B of Aggregation.tla)
     agg.finish(v, ah)
+    # the scheduling-path family (its exhaustive runs, scenarios and driver ran beside everything above)
+    paths_finish(v, ph)
     if bigpool is not None:
         v.add_mc(bigs[0].result())
         for r in bigs[1].result():
@@ -332,7 +543,11 @@ def run(tier):
                           "message job with a member that has an account and a signature; distinct by step list and signer.  Aggregation "
                           "pipeline: every one-job behaviour of Scen_Aggregation (B) enumerated by TLC plus simulated "
                           "two-job histories (quick: a seeded sample with every outcome class), replayed on the real "
-                          "synccommitteeaggregator; non-trivial = a contribution was obtained")
+                          "synccommitteeaggregator; non-trivial = a contribution was obtained.  Scheduling paths: behaviours "
+                          "of SyncPaths.tla (three seeded constant sets: refresh-, fork-centred, general) with the classes "
+                          "'the jobs of a slot set up by path X ran with a member outside the validating set' forced in for "
+                          "each of the four paths, each on one wired instance; non-trivial = the jobs of a slot ran whose "
+                          "duty has a member with an account")
     return v.finish()
 
 
@@ -342,6 +557,9 @@ def replay(path):
         s = json.load(fh)
     if agg.is_mine(s):
         agg.replay(v, PID, s)
+        return 1 if v.violations else 0
+    if s.get("family") == "paths":
+        _paths_conformance(v, [s], None)
         return 1 if v.violations else 0
     cfg = "Trace_SyncCommittee_b.cfg" if s.get("spe", SPE) == 3 else "Trace_SyncCommittee.cfg"
     vf.conformance(v, [s], driver, "Trace_SyncCommittee", cfg, sig_of, nontrivial)
